@@ -223,6 +223,27 @@ def find_constant_failure(stmts):
     return found
 
 
+def dead_branch_templates():
+    """a constant (or captured-constant) condition whose dead branch holds an operation that would fail if it
+    were folded or run: only the chosen branch is evaluated - at parse time, at closure creation, at run time"""
+    T = []
+    L = ("set", "log", ("mut", arr(ANY), ("array", [])))
+    fin = lambda e: ("tuple", [e, ("pre", "deref", V("log"))])
+    for cc in (("true",), ("false",)):
+        dead = ("block", [("bin", "div", I(10), V("zero"))])
+        live = ("block", [I(-1)])
+        br = (live, dead) if cc == ("true",) else (dead, live)
+        T.append([L, ("set", "zero", I(0)), ("set", "r", ("if", cc, br[0], br[1])), fin(V("r"))])
+        T.append([L, ("set", "zero", I(0)), ("set", "r", ("if", ("bin", "eq" if cc == ("true",) else "ne", V("zero"), I(0)), br[0], br[1])), fin(V("r"))])
+        T.append([L, ("fndecl", "mk", [("d", INT)], ("fn", (), INT), [("return", ("fn", [], INT, [
+                      ("if", ("bin", "ne", V("d"), I(0)), ("block", [("return", ("bin", "div", I(10), V("d")))]), None), ("return", I(-1))]))]),
+                  fin(("call", ("call", V("mk"), [I(0)]), []))])
+        T.append([L, ("set", "a", ("repeat", I(1), I(0))), ("set", "n", ("mut", INT, I(0))),
+                  ("while", ("bin", "gt", ("call", ("facc", V("std"), "len"), [V("a")]), I(0)), ("block", [("assign", "add", V("n"), ("at", V("a"), I(0)))])),
+                  fin(("pre", "deref", V("n")))])
+    return T
+
+
 def templates():
     """constants planted in every position a constant can occupy"""
     T = []
@@ -268,6 +289,18 @@ def templates():
               fin(("call", V("f"), [V("x")]))])
     # constant statements that are not last
     T.append([L, I(1), ("s", "x"), mark(1), I(2), fin(I(3))])
+    # identity / absorbing constants next to an operand that has an effect, fails, or makes the operation
+    # fail: algebraic simplifications (0 * x, 0 << x, x & 0, x ** 0, 1 ** x, x - 0 ..) must keep the other
+    # operand's evaluation and the operation's own failure
+    EFF = ("fndecl", "e", [("v", INT)], INT, [mark(1), ("return", V("v"))])
+    for op in ops:
+        for c in (0, 1, -1):
+            for other in (3, 0, 70, -1):
+                T.append([L, EFF, fin(("bin", op, I(c), ("call", V("e"), [I(other)])))])
+                T.append([L, EFF, fin(("bin", op, ("call", V("e"), [I(other)]), I(c)))])
+                T.append([L, EFF, ("set", "k", I(c)), ("fndecl", "g", [("p", INT)], ANY, [("return", ("bin", op, V("k"), ("call", V("e"), [V("p")])))]),
+                          fin(("call", V("g"), [I(other)]))])
+    T += dead_branch_templates()
     # unary operators on constants
     for v in (0, 5, -2**63):
         T.append([L, fin(("tuple", [("pre", "neg", I(v)), ("pre", "not", I(v))]))])
@@ -286,7 +319,7 @@ def run(res, tier, seed, broken_model):
     recs = P.run_programs(variants, broken_model=True)      # implementation only; the model is consulted for P below
     mrecs = P.run_programs(base, broken_model=broken_model)
     res.streams["twins"] = dict(programs=len(base), templates=len(T), executions=len(variants))
-    good = progprop.judge(res, mrecs, broken_model, label="P-vs-Spec")
+    good = progprop.judge(res, mrecs, broken_model, label="P-vs-Spec", ntemplates=len(T))
     for k, p in enumerate(base):
         r0, r1, r2 = recs[3 * k], recs[3 * k + 1], recs[3 * k + 2]
         res.evaluations += 2
@@ -334,13 +367,21 @@ def run(res, tier, seed, broken_model):
                 cls = "error-only-when-constants-visible"
             elif o0[0] == "value" and oh[0] == "error":
                 cls = "error-only-when-constants-hidden"
+                if oh[1] in FOLDABLE:
+                    # finding F07 can also work this way round: hiding a literal keeps a branch alive whose
+                    # operations are then folded with CAPTURED values when a closure is created.  That is the
+                    # explanation iff hiding the captured operands as well restores the literal program's outcome
+                    hc = ("fndecl", "hc", [("v", INT)], INT, [("return", V("v"))])
+                    t3 = P.run_programs([[hc] + [progprop.hide_captured(x, False) for x in hide(p, "call")]], broken_model=True)[0]
+                    if outcome(t3) == o0:
+                        cls = "error-only-when-constants-hidden/closure-creation"
             elif o0[0] == "value" and oh[0] == "value":
                 cls = "different-values"
             else:
                 cls = "%s-vs-%s" % (o0[0], oh[0])
             res.violation("twins differ (%s): `%s` -> %s ; hidden (%s) -> %s" % (cls, r0.src[:300], o0, name, oh),
                           dict(program=r0.src, flags="std", impl=r0.impl, twin=rh.src, twin_outcome=rh.impl),
-                          dict(oracle="twin", cls=cls))
+                          dict(oracle="twin", cls=cls, origin="template" if k < len(T) else "generated"))
     for r in recs[:3]:
         res.samples.append(dict(program=r.src[:400], impl=r.impl[:200]))
     res.rule = ("twin execution: templates planting constants in every position (17 operators x 8 operand pairs x {literal, "
